@@ -180,6 +180,10 @@ def decide(prop, scratch, tier, seed, t0):
     pid = prop.pid
     rng = random.Random(seed * 1000003 + int(pid[1:]))
     notes = []
+    if tier == "thorough" and not os.environ.get("VERIF_COVERAGE"):
+        # thorough tier: measure which lines of yarl/*.py the pure-Python worker executes under this property's streams
+        os.environ["VERIF_COVERAGE"] = os.path.join(scratch.dir, "cov")
+        os.environ["VERIF_COVERAGE_AUTO"] = "1"
     tie_broken = []          # names of obligations / correspondences that no longer check
     assumptions = list(prop.assumptions)
 
@@ -350,6 +354,12 @@ def decide(prop, scratch, tier, seed, t0):
         violations = 1
         rc = 1
 
+    src_cov = None
+    if os.environ.get("VERIF_COVERAGE_AUTO"):
+        try:
+            src_cov = core.source_coverage(scratch, os.environ["VERIF_COVERAGE"])
+        except Exception as ex:  # measurement is informational only
+            notes.append("source coverage unavailable: %r" % (ex,))
     wall = time.time() - t0
     coverage = {
         "obligations": max(1, aud["obligations"]),
@@ -376,6 +386,8 @@ def decide(prop, scratch, tier, seed, t0):
         "backends": ext_backends,
         "notes": notes[:10],
     }
+    if src_cov:
+        coverage["implementation_lines_executed_by_streams"] = src_cov
     core.write_evidence(pid, tier, seed, coverage, assumptions, wall, violations)
     print(f"{pid} {tier}: obligations {aud['discharged']}/{aud['obligations']}, {stats['evaluations']} ops compared, "
           f"{len(disagreements)} disagreements, {len(failures)} oracle failures ({len(known_hits)} known), {wall:.1f}s")
